@@ -529,6 +529,8 @@ class Parser:
             return ast.literal_eval(tok.string)
         except SyntaxError as e:
             self.raise_syntax_error_known_location(e.msg, tok)
+        except UnicodeEncodeError as e:  # a lone surrogate in the source text
+            self.raise_syntax_error_known_location(f"(unicode error) {e}", tok)
 
     def _concat_strings_in_constant(self, parts: list[TokenInfo]) -> ast.Constant:
         s = self._eval_string_token(parts[0])
